@@ -7,7 +7,7 @@ use crate::trace::{to_hex, Ev, Trace};
 pub const RIP_L0: &[u8] = b"wv*eEgH>cQaWmT@YXLRBCOoAVIiZPplF=Ss$#";
 pub const RIP_L1: &[u8] = b"MKTtECPWIBUD\x1bGRF";
 pub const IGS_CMDS: &[u8] = b"AbBCDEFfgGqHIJkKLzMnNOPQRsStTUVWYZ<?cdilmprvwX";
-pub const GFX_FUEL: u64 = 64 * 640 * 400;
+pub const GFX_FUEL: u64 = 256 * 640 * 400;
 
 const IGS_VALUES: [i64; 20] = [0, 1, 2, 3, 4, 5, 8, 10, 15, 16, 99, 100, 199, 200, 319, 320, 639, 640, 9999, 99999];
 
